@@ -689,9 +689,8 @@ mod reference {
             }
         }
         fn remove_attr(&mut self, n: &str) {
-            if !valid_attr_name(n) {
-                return;
-            }
+            // "Removes an attribute with the `name` if it is present": a lookup, no validation of the name
+            // (`<a =b>` has an attribute named `=b`; finding F8, repaired)
             let before = self.attrs.len();
             self.attrs.retain(|a| !a.name.eq_ignore_ascii_case(n.as_bytes()));
             if self.attrs.len() != before {
